@@ -212,6 +212,9 @@ func (k KeyRing) VerifyJSONs(ctx context.Context, requests []VerifyJSONRequest) 
 	}
 
 	keysFetched := map[PublicKeyLookupRequest]PublicKeyLookupResult{}
+	// What the fetchers supplied, as opposed to what was only read from the
+	// database: this, and nothing else, is written to the database afterwards.
+	keysToStore := map[PublicKeyLookupRequest]PublicKeyLookupResult{}
 	now := spec.AsTimestamp(time.Now())
 	for req, res := range keysFromDatabase {
 		if res.ExpiredTS != PublicKeyNotExpired {
@@ -284,6 +287,7 @@ func (k KeyRing) VerifyJSONs(ctx context.Context, requests []VerifyJSONRequest) 
 				}
 			}
 			keysFetched[req] = res
+			keysToStore[req] = res
 			delete(keyRequests, req)
 		}
 	}
@@ -306,8 +310,12 @@ func (k KeyRing) VerifyJSONs(ctx context.Context, requests []VerifyJSONRequest) 
 	k.checkUsingKeys(requests, results, keyIDs, keysFetched)
 
 	// Add the keys to the database so that we won't need to fetch them again.
-	if err := k.KeyDatabase.StoreKeys(ctx, keysFetched); err != nil {
-		return nil, err
+	// (Only the fetched ones: writing back a record that was merely read would
+	// undo what a concurrent call has stored for that key in the meantime.)
+	if len(keysToStore) > 0 {
+		if err := k.KeyDatabase.StoreKeys(ctx, keysToStore); err != nil {
+			return nil, err
+		}
 	}
 
 	return results, nil
